@@ -105,6 +105,8 @@ func cmdCheck(args []string) int {
 		fmt.Fprintln(os.Stderr, "check: -p required")
 		return 2
 	}
+	vc.ExternSpec = filepath.Join(*verif, "contracts", "extern.spec")
+	vc.BindCacheFile = filepath.Join(*verif, "contracts", "bindings.cache.json")
 	if t := os.Getenv("VERIF_TIER"); t == "quick" || t == "thorough" {
 		*tier = t
 	}
